@@ -292,7 +292,8 @@ def _eval_missing(test: ast.AST, var: str, marker) -> Optional[bool]:
         safe = {"isinstance": isinstance, "str": str, "len": len, "bool": bool, "int": int,
                 "float": float, "bytes": bytes, "list": list}
         # constant folding only: the test mentions nothing but the variable and these names
-        if names - {var.split(".")[0]} - set(safe):
+        var_names = {n.id for n in ast.walk(ast.parse(var, mode="eval")) if isinstance(n, ast.Name)}
+        if names - var_names - set(safe):
             return None
         return bool(eval(code, {"__builtins__": safe}, {"_V": marker}))
     except Exception:
@@ -304,7 +305,8 @@ def _subst_var(test: ast.AST, var: str) -> ast.AST:
 
     class Tr(ast.NodeTransformer):
         def generic_visit(self, node):
-            if isinstance(node, (ast.Name, ast.Attribute)) and ast.unparse(node) == var:
+            if isinstance(node, (ast.Name, ast.Attribute, ast.Subscript)) and \
+                    ast.unparse(node) == var:
                 return ast.copy_location(ast.Name("_V", ast.Load()), node)
             return super().generic_visit(node)
     t = Tr().visit(copy.deepcopy(test))
@@ -397,9 +399,20 @@ def _defaults(prog: Program, run: Run) -> None:
                       "the sub-value is not taken at the position of the sub-parameter's name in "
                       "the specification's subparams", gs.loc)
         return
-    ifs = [x for x in walk_no_nested(fn) if isinstance(x, ast.If) and res in {
-        n.id for n in ast.walk(x.test) if isinstance(n, ast.Name)} and any(
+    # the test may look at the local the sub-value was put into, or at the indexing expression
+    # itself (`if values[i] is None ...: r = default else: r = values[i]`)
+    res_expr = None
+    for x in walk_no_nested(fn):
+        if isinstance(x, ast.Assign) and isinstance(x.targets[0], ast.Name) and \
+                x.targets[0].id == res and isinstance(x.value, ast.Subscript):
+            res_expr = ast.unparse(x.value)
+    ifs = [x for x in walk_no_nested(fn) if isinstance(x, ast.If) and (res in {
+        n.id for n in ast.walk(x.test) if isinstance(n, ast.Name)} or (
+            res_expr is not None and res_expr in ast.unparse(x.test))) and any(
             "physical_default_value" in ast.unparse(s) for s in x.body)]
+    if ifs and res not in {n.id for n in ast.walk(ifs[0].test) if isinstance(n, ast.Name)} and \
+            res_expr is not None:
+        res = res_expr
     if not ifs:
         run.violation(R, C, "no-default", "sub-values never fall back to the default", gs.loc)
         return
